@@ -150,7 +150,7 @@ template <typename T> void roundtrip(const T& value, const std::string& bytes, s
 }
 template <typename T> void roundtrip(const T&, const std::string&, std::false_type) { std::cout << " rt=na trunc=na"; }
 
-template <bool Deser, typename T> void run_case(const T& value)
+template <bool Deser, typename T> std::string run_case(const T& value)
 {
   const std::size_t size = mserialize::serialized_size(value);
   Bounded out(size);
@@ -172,7 +172,31 @@ template <bool Deser, typename T> void run_case(const T& value)
       try { mserialize::visit(mserialize::string_view(tag.data(), tag.size()), v, in); } catch (const std::exception&) { ok = false; } }
     if (ok) std::cout << hex(text.str()); else std::cout << "err";
   }
-  std::cout << "\n";
+  return out.data;
 }
+
+// the same bytes read into a tag-compatible destination type: must succeed, consume everything and re-serialize to the same bytes
+template <typename D> void cross(const std::string& bytes)
+{
+  std::string r = "bad";
+  try
+  {
+    D dst{}; binlog::Range in(bytes.data(), bytes.size());
+    mserialize::deserialize(dst, in);
+    Bounded again(bytes.size()); mserialize::serialize(dst, again);
+    if (in.size() == 0 && again.data == bytes && !again.overrun) r = "ok";
+  }
+  catch (const std::exception&) {}
+  std::cout << " xt=" << r;
+}
+// the same bytes read into a fixed-size destination of another extent: must be rejected
+template <typename D> void mismatch(const std::string& bytes)
+{
+  std::string r = "bad";
+  try { D dst{}; binlog::Range in(bytes.data(), bytes.size()); mserialize::deserialize(dst, in); }
+  catch (const std::exception&) { r = "ok"; }
+  std::cout << " fx=" << r;
+}
+inline void endcase() { std::cout << "\n"; }
 
 } // namespace mc
